@@ -35,6 +35,7 @@ import (
 	"github.com/lindb/lindb/metrics"
 	"github.com/lindb/lindb/models"
 	"github.com/lindb/lindb/pkg/strutil"
+	"github.com/lindb/lindb/pkg/verifhook"
 	"github.com/lindb/lindb/series/field"
 	"github.com/lindb/lindb/series/metric"
 	"github.com/lindb/lindb/series/tag"
@@ -308,15 +309,19 @@ func (mm *metricMetaDatabase) Flush() error {
 	if err := mm.sequence.Sync(); err != nil {
 		return err
 	}
+	verifhook.Yield("index.metadb.flush.afterSync")
 	if err := mm.ns.Flush(); err != nil {
 		return err
 	}
+	verifhook.Yield("index.metadb.flush.afterNamespace")
 	if err := mm.metric.Flush(); err != nil {
 		return err
 	}
+	verifhook.Yield("index.metadb.flush.afterMetric")
 	if err := mm.schemaStore.Flush(); err != nil {
 		return err
 	}
+	verifhook.Yield("index.metadb.flush.afterSchema")
 	if err := mm.tagValue.Flush(); err != nil {
 		return err
 	}
